@@ -69,6 +69,10 @@ def gen(rng, tier):
                 for k in range(1 if tier == "quick" else 8):
                     n += 1
                     yield {"family": "max_requests", "kind": "max_requests", "backend": be, "max_requests": mr, "jitter": jitter, "tag": n, "rep": k, "how": "h1"}
+            for mr, jitter in ((2, 3), (1, 2)):
+                n += 1
+                yield {"family": "max_requests.successive-workers", "kind": "max_requests", "backend": be, "max_requests": mr, "jitter": jitter, "tag": n,
+                       "rep": 0, "how": "h1", "workers": 3}
             for how in ("h1_abandon", "h1_concurrent"):
                 for mr, jitter in ((2, 0), (1, 1)):
                     n += 1
@@ -268,6 +272,21 @@ def _cums(reads):
 
 
 def _max_requests(case, tally):
+    if case.get("workers", 1) > 1:
+        # a worker that has recycled itself is replaced by another one started from the *same* configuration object: the limit (and the
+        # range of its jitter) is a property of the configuration, not of how many workers it has already served
+        findings, cfg_obj = [], None
+        for k in range(case["workers"]):
+            f, _, cfg_obj = _max_requests_one(dict(case, workers=1), tally, config=cfg_obj, label="worker #%d" % (k + 1))
+            findings += f
+            if f:
+                break
+        return findings, [None]
+    f, o, _ = _max_requests_one(case, tally)
+    return f, o
+
+
+def _max_requests_one(case, tally, config=None, label=""):
     from ..world.realnet import ServeHarness, recv_all
 
     findings = []
@@ -283,7 +302,9 @@ def _max_requests(case, tally):
         # requests held open simultaneously: none of them completes before the limit is exceeded
         apps["default"] = [["recv_until_end"], ["wait", "never"], ["respond", 200, [(b"content-length", b"2")], b"ok"]]
     held = []
-    h = ServeHarness(be, cfg, apps)
+    h = ServeHarness(be, cfg if config is None else {}, apps, config=config)
+    if config is not None:
+        h.config.bind = ["127.0.0.1:0"]
     served = 0
     try:
         h.start()
@@ -334,11 +355,13 @@ def _max_requests(case, tally):
     lo, hi = case["max_requests"], case["max_requests"] + case["jitter"] + 1
     if not returned:
         findings.append({"clause": "max-requests", "sig": "C18.max-requests/never-recycled/%s" % be, "backend": be,
-                         "detail": "%d requests were taken on (max_requests=%d jitter=%d) and serve() did not begin its graceful exit" % (started, case["max_requests"], case["jitter"])})
+                         "detail": "%s%d requests were taken on (max_requests=%d jitter=%d) and serve() did not begin its graceful exit" % (
+                             label and label + ": ", started, case["max_requests"], case["jitter"])})
     elif not (lo < started <= hi):
         findings.append({"clause": "max-requests", "sig": "C18.max-requests/count-outside-range/%s" % be, "backend": be,
-                         "detail": "serve() exited after taking on %d requests; the statement allows (%d, %d] for max_requests=%d jitter=%d" % (started, lo, hi, case["max_requests"], case["jitter"])})
-    return findings, [None]
+                         "detail": "%sserve() exited after taking on %d requests; the statement allows (%d, %d] for max_requests=%d jitter=%d" % (
+                             label and label + ": ", started, lo, hi, case["max_requests"], case["jitter"])})
+    return findings, [None], h.config
 
 
 def nontrivial(case, obs):
